@@ -168,3 +168,18 @@ Fixpoint lookups_core_xt (vt : variant) (s : scenario) (x : extras) (ns : list n
       let '(o2, (st2, outs)) := lookups_core_xt vt s x r st1 in (o1 ++ o2, (st2, LFail k :: outs))
     end
   end.
+
+(* Factory.GetComponents() without options (factory.go :120-130): GetComponentByName for every definition in name
+   order; the first error ends it and is all the caller gets *)
+Fixpoint bulk_core_xt (vt : variant) (s : scenario) (x : extras) (ns : list name) (st : fstate)
+  : list rop * (fstate * res (list ver)) :=
+  match ns with
+  | [] => ([], (st, Ok []))
+  | n :: r =>
+    match do_get_xt vt s x (fuel_of s) st n with
+    | (o1, Ok (st1, v)) =>
+      let '(o2, (st2, r2)) := bulk_core_xt vt s x r st1 in
+      (o1 ++ o2, (st2, match r2 with Ok vs => Ok (v :: vs) | Fail k l => Fail k l end))
+    | (o1, Fail k st1) => (o1, (st1, Fail k st1))
+    end
+  end.
